@@ -170,6 +170,20 @@ def run(tier, seed, proof):
             open(pth, "w").write("# raw-transport case (replayed by vlib/c09.py)\n" + txt)
         res.divergences.append(("raw transports: " + d, pth))
     res.extra["raw_transport_runs"] = sub.extra.get("runs_per_family_and_transport")
+    # splice(2) missing: iv_fd_pump falls back to a read()/write() bounce buffer; C17's scripted runs cover that mode (forced, and chosen by
+    # the availability probe failing); a failure of a pump that runs WITHOUT splice is a failure of this property's fallback clause
+    from . import c17
+    sub17 = c17.run(tier, seed, proof)
+    res.evaluations += sub17.evaluations
+    res.nontrivial |= set("pump-" + x for x in sub17.nontrivial)
+    for sig, msg, pth in sub17.impl_violations:
+        txt = open(pth).read() if pth and os.path.isfile(pth) else ""
+        news = [l.split() for l in txt.splitlines() if l.startswith("new")]
+        rw_only = news and all(("probe-fail" in w) or (w[-2] == "0") for w in news)
+        if rw_only:
+            open(pth, "w").write("# pump case (replayed by vlib/c17.py)\n" + txt)
+            res.impl_violations.append(("C15:pump:" + sig, "iv_fd_pump without splice(2): " + msg, pth))
+    res.extra["pump_cases"] = sub17.evaluations
     res.extra["faults_fired"] = dict(fired)
     res.extra["selection_cases"] = len(sel)
     res.extra["configurations_per_base"] = sum(len(v) for v in FACILITIES.values())
@@ -184,4 +198,7 @@ def replay(path):
     if "# raw-transport case" in open(path).read():
         from . import c09
         return c09.replay(path)
+    if "# pump case" in open(path).read():
+        from . import c17
+        return c17.replay(path)
     return l1.replay(path)
